@@ -24,7 +24,7 @@ CFG = ("validation_enabled", "validation_depth", "cache_dataframe", "keep_cached
 
 def _mk(target_cls, target):
     class V(Contract):
-        raises = (SchemaError, SchemaErrors, SchemaDefinitionError, OtherException)
+        raises = (SchemaError, SchemaErrors, SchemaDefinitionError, OtherException, TypeError)
         split = {"kind": ["DataFrame", "LazyFrame"]}
 
         def setup(self, I):
@@ -52,7 +52,16 @@ def _mk(target_cls, target):
                     p.ghost["backend_result"] = out
                     return out
 
-            I.models[id(BaseSchema.get_backend.__func__)] = lambda I, cls_or_self, *a, **k: Backend()
+            def get_backend(I_, cls_or_self, *a, **k):
+                # the back end registered for the type of the argument, else BackendNotFoundError - a TypeError (C06: "TypeError for a
+                # non-dataframe argument"); the context configuration is restored on that exit as on every other
+                if cur().choose([("registered", None), ("no_backend_for_this_type_of_argument", None)], "get_backend") == 1:
+                    from pandera.errors import BackendNotFoundError
+
+                    raise PyExc(I_.make_exc(BackendNotFoundError, "Backend not found for backend, class: ..."))
+                return Backend()
+
+            I.models[id(BaseSchema.get_backend.__func__)] = get_backend
 
         def make_args(self):
             kind = self.fixed.get("kind", "LazyFrame")
